@@ -349,3 +349,69 @@ impl Rng {
         &xs[self.below(xs.len() as u64) as usize]
     }
 }
+
+/// Element-wise sum written out by hand (the reference descent of C04 must not trust `Tensor::add_inplace`):
+/// `a[i] += b[i]` at every position of tensors of identical structure, nested lists position by position.
+pub fn add_tensors(a: &mut Tensor, b: &Tensor) {
+    match (&mut a.data, &b.data) {
+        (Data::Single(x), Data::Single(y)) => {
+            assert_eq!(x.len(), y.len(), "harness: add_tensors length");
+            for i in 0..x.len() {
+                x[i] += y[i];
+            }
+        }
+        (Data::Double(x), Data::Double(y)) => {
+            assert_eq!(x.len(), y.len(), "harness: add_tensors rows");
+            for i in 0..x.len() {
+                assert_eq!(x[i].len(), y[i].len(), "harness: add_tensors columns");
+                for j in 0..x[i].len() {
+                    x[i][j] += y[i][j];
+                }
+            }
+        }
+        (Data::Triple(x), Data::Triple(y)) => {
+            assert_eq!(x.len(), y.len());
+            for i in 0..x.len() {
+                assert_eq!(x[i].len(), y[i].len());
+                for j in 0..x[i].len() {
+                    assert_eq!(x[i][j].len(), y[i][j].len());
+                    for k in 0..x[i][j].len() {
+                        x[i][j][k] += y[i][j][k];
+                    }
+                }
+            }
+        }
+        (Data::Quadruple(x), Data::Quadruple(y)) => {
+            assert_eq!(x.len(), y.len());
+            for i in 0..x.len() {
+                assert_eq!(x[i].len(), y[i].len());
+                for j in 0..x[i].len() {
+                    assert_eq!(x[i][j].len(), y[i][j].len());
+                    for k in 0..x[i][j].len() {
+                        assert_eq!(x[i][j][k].len(), y[i][j][k].len());
+                        for l in 0..x[i][j][k].len() {
+                            x[i][j][k][l] += y[i][j][k][l];
+                        }
+                    }
+                }
+            }
+        }
+        (Data::Nested(x), Data::Nested(y)) => {
+            assert_eq!(x.len(), y.len());
+            for i in 0..x.len() {
+                add_tensors(&mut x[i], &y[i]);
+            }
+        }
+        (Data::NestedOptional(x), Data::NestedOptional(y)) => {
+            assert_eq!(x.len(), y.len());
+            for i in 0..x.len() {
+                match (x[i].as_mut(), y[i].as_ref()) {
+                    (Some(p), Some(q)) => add_tensors(p, q),
+                    (None, None) => (),
+                    _ => panic!("harness: add_tensors optional pattern"),
+                }
+            }
+        }
+        _ => panic!("harness: add_tensors on different kinds of data"),
+    }
+}
